@@ -203,9 +203,12 @@ def _for_uid(n):
 
 def _mk_volume(c):
     from highdicom.volume import Volume
-    return Volume(_np_array(c['shape'], c['chans'], c['data'], c['dtype']), _np_affine(c['affine']),
-                  c['cs'], frame_of_reference_uid=_for_uid(c['for']),
-                  channels=_chan_dict(c['chans']) or None)
+    A = _np_affine(c['affine'])
+    v = Volume(_np_array(c['shape'], c['chans'], c['data'], c['dtype']), A,
+               c['cs'], frame_of_reference_uid=_for_uid(c['for']),
+               channels=_chan_dict(c['chans']) or None)
+    A[:] = 12345.0      # the caller re-uses its float64 buffer: the volume must own a copy of the affine
+    return v
 
 
 def _py_index(ix):
